@@ -125,6 +125,8 @@ def plan(tier, seed):
                         for cname, cprefix in CONTEXTS:
                             if cname in ("yearend", "leapday", "monthend") and (vname == "digits" or (tier == "quick" and j not in ("-", "bis"))):
                                 continue  # roll-over days: explicit clock notations (quick: two joiners)
+                            if tier == "quick" and (vname == "oclock-end" or j.endswith("_glued")) and cname not in ("none", "date", "tomorrow"):
+                                continue
                             if cname in ("on_weekday", "am_wochentag") and (j not in ("-", "to", "bis") or vname == "digits"):
                                 continue  # connector + weekday in front of the range: three joiners, explicit clock notations (bare numbers behind 'on monday' also read as days of the month)
                             yield ("clock", cprefix + date_join(ta, tb, j), (ha, ma), (hb, mb), (j, vname, cname), TS)
